@@ -29,8 +29,8 @@ FRAC_MAX = 0.95
 # number of 2*pi wraps removed.  The implementation adds float32(2*pi*k) to the input and subtracts a
 # float32 mean, so its error is ~ulp32(2*pi*k) + ulp32(|out|), about 1e-6*(1+|k|).  Measured on the
 # pinned tree (quick tier, seeds 1, 2, 3, 7, 11, 12, 12345; the worst value is recorded in the evidence
-# as extra.max_err_over_1_plus_k:*): float32 input <= 1.1e-6, float64 input <= 4.1e-7 (offsets are
-# float32 either way), bf route <= 8.7e-7.  1e-4 leaves ~90x head-room; a wrong unwrap is off by 2*pi
+# as extra.max_err_over_1_plus_k:*): float32 input <= 1.2e-6, float64 input <= 4.1e-7 (offsets are
+# float32 either way), bf route <= 1.3e-6.  1e-4 leaves ~80x head-room; a wrong unwrap is off by 2*pi
 # (6.28), so the head-room hides nothing.
 TOL_BASE = 1e-4
 
